@@ -21,6 +21,12 @@ HASH_SENSITIVE = [
     "~{5%Min} @a{1%Kg} 15 MIN\n",
     "Add 2 tablespoons of oil, 500 millilitres of stock and 3 kilograms of bones; simmer 90 minutes at 180 celsius\n",
     ">> servings: 2|4\n>> tags: a, b, a\n>> author: Me <https://me.example>\n>> locale: en_GB\n@x{1 1/2%cups} @y{0.333%cup} @z{7%oz}\n",
+    # durations with unit names (read through the converter), durations that are no whole number of minutes, a composed time whose
+    # second part is out of form, out-of-form values of every checked key
+    "---\ntime: 1 hour 30 min\nprep time: 15 minutes\ncook time: 90 seconds\n---\nAdd @x{1%cup} and wait 2 hours\n",
+    "---\ntime: {prep: 45 secs, cook: a while}\n---\nstep\n",
+    ">> time: 400 secs\n>> prep time: 1.5\n>> cook time: 2 h 5 min\nstep\n",
+    "---\ntime: soon\nservings: many\ntags: [[a]]\nlocale: nowhere_\nauthor: {x: 1}\n---\nstep\n",
 ]
 
 
@@ -47,7 +53,7 @@ def check_c18(ctx):
     pin = os.path.join(ctx.work, "inputs.ndjson")
     core.write_ndjson(pin, [dict(text=t) for t in texts])
     # every other run starts all threads on this input: whatever a brand-new parser builds lazily is raced for
-    COLD = next(i for i, t in enumerate(texts) if "tablespoons" in t)
+    COLD = ",".join(str(i) for i, t in enumerate(texts) if "tablespoons" in t or "1 hour 30 min" in t or "400 secs" in t)
     runs = 12 if quick else 60
     trace = os.path.join(ctx.work, "shared.ndjson")
     events = 0
@@ -58,7 +64,7 @@ def check_c18(ctx):
     CONFIGS = [("all", "b"), ("none", "e"), ("compat", "b")]
     basefile = {}
     for ext, conv in CONFIGS:
-        jobs = [(op, i) for op in ("parse", "meta", "validated", "scale") for i in range(len(texts))]
+        jobs = [(op, i) for op in ("parse", "meta", "validated", "scale", "accessors") for i in range(len(texts))]
 
         def one(job, ext=ext, conv=conv):
             p = subprocess.run([core.BIN, "shared", "--in", pin, "--ext", ext, "--conv", conv, "--one", f"{job[0]}:{job[1]}"],
@@ -72,14 +78,14 @@ def check_c18(ctx):
         with open(bf, "w") as f:
             f.write("\n".join(lines) + "\n")
         basefile[(ext, conv)] = bf
-    ctx.extra["pristine_baseline_processes"] = sum(1 for _ in basefile) * 4 * len(texts)
+    ctx.extra["pristine_baseline_processes"] = sum(1 for _ in basefile) * 5 * len(texts)
     with open(trace, "w") as out:
         for k in range(runs):
             po = os.path.join(ctx.work, f"run{k}.ndjson")
             ext, conv = CONFIGS[k % 3]
             core.run_harness(ctx, ["shared", "--in", pin, "--out", po, "--threads", "8", "--calls", "60" if quick else "150",
                                    "--ext", ext, "--conv", conv, "--base", basefile[(ext, conv)]]
-                             + (["--cold", str(COLD)] if k % 2 == 0 else []), env={"VERIF_SEED": str(ctx.seed + k)})
+                             + (["--cold", COLD] if k % 2 == 0 else []), env={"VERIF_SEED": str(ctx.seed + k)})
             with open(po) as f:
                 for line in f:
                     out.write(line)
@@ -99,9 +105,10 @@ def check_c18(ctx):
     ctx.rule = (f"{runs} fresh processes; in each, 8 threads released by a barrier share one parser (first calls go for the lazily "
                 "built fraction table) and then one thread runs a sequential history (every input after every input, reversed "
                 "order, random skips) of the operations parse / parse_metadata / parse_with_options(validator) / parse+scale+"
-                "convert+group over inputs that route through every hash map on the parse path (time override labels, front "
+                "convert+group / parse+standard-metadata-accessors over inputs that route through every hash map on the parse path (time override labels, front "
                 "matter, many same-name components) plus repository recipes and random splices; baselines come from a fresh "
-                "parser per call. The thread schedules are the ones the OS produced, not an exhaustive set. "
+                "process per call. Every other process opens with 40 cold-start rounds (a brand-new parser, all threads released on one of three "
+                "inputs: prose with unit names, durations with unit names, durations that are no whole minutes). The thread schedules are the ones the OS produced, not an exhaustive set. "
                 "non-trivial = distinct (operation, input, thread) triples")
     ctx.extra["schedules_observed"] = runs
     ctx.extra["events"] = events
